@@ -441,7 +441,7 @@ pub enum PolyDefect {
     InteriorDisconnected,
 }
 /// touch points and relation of two simple rings: Err(defect) if they overlap along a line
-fn ring_touch_points(a: &[IP], b: &[IP]) -> Result<Vec<P>, ()> {
+pub fn ring_touch_points(a: &[IP], b: &[IP]) -> Result<Vec<P>, ()> {
     let mut pts = vec![];
     for w in a.windows(2) {
         for z in b.windows(2) {
@@ -459,7 +459,7 @@ fn ring_touch_points(a: &[IP], b: &[IP]) -> Result<Vec<P>, ()> {
     Ok(pts)
 }
 /// locations (w.r.t. the region bounded by ring `b` alone) of the pieces of ring `a` split at `cuts`
-fn piece_locs(a: &[IP], cuts: &[P], b: &[IP]) -> Vec<Loc> {
+pub fn piece_locs(a: &[IP], cuts: &[P], b: &[IP]) -> Vec<Loc> {
     let bq: Vec<P> = b.iter().map(|&p| pq(p)).collect();
     let rings = vec![bq];
     let mut out = vec![];
